@@ -15,7 +15,7 @@ META = dict(
 
 def tasks(tier):
     from vf.core import Task
-    return [Task('props.C20:ob_memo', name='C20/memo-keys', timeout=120)] + [Task('props.wire:run', name='C20/wire.c20_integrator_frame', fname='c20_integrator_frame_semantic', timeout=600), Task('props.wire:run', name='C20/wire.c20_frame_small', fname='c20_frame_small', timeout=300),
+    return [Task('props.C20:ob_memo', name='C20/memo-keys', timeout=120), Task('props.wire:run', name='C20/wire.c20_cov_dist_order', fname='c20_cov_dist_order', timeout=300)] + [Task('props.wire:run', name='C20/wire.c20_integrator_frame', fname='c20_integrator_frame_semantic', timeout=600), Task('props.wire:run', name='C20/wire.c20_frame_small', fname='c20_frame_small', timeout=300),
             Task('props.C20:t_S_frame', name='C20/wire.S_frame', timeout=120)] + _kernel_frames() + bounded_tasks('C20', tier)
 
 
